@@ -48,6 +48,24 @@ class CharsIter:
         self.s, self.i = s, 0
 
 
+class StrBuf:
+    """alloc::string::String / Vec<u8> modelled as a growable byte list."""
+    __slots__ = ("b",)
+
+    def __init__(self, b=()):
+        self.b = list(b)
+
+    def __repr__(self):
+        return "StrBuf(%r)" % bytes(self.b)
+
+
+def strbuf_of(I, v):
+    v = deref(I, v)
+    if isinstance(v, StrBuf):
+        return v
+    raise Unsupported("expected String, got %r" % (v,))
+
+
 class TakeWhileIter:
     __slots__ = ("it", "clos", "done")
 
@@ -528,7 +546,65 @@ def call(I, fr, name, fname, k, args, depth):
     if "__is_feature_detected::" in name:
         feat = name.rsplit("::", 1)[1]
         return int(I.features.get(feat, True)) if hasattr(I, "features") else 1
-    if name.endswith("string::String::from_utf8_lossy") or name.endswith("Cow::<'_, B>::into_owned") or name.endswith("borrow::Cow::<'_, B>::into_owned") or name.endswith("fmt::format") or "fmt::Arguments" in name or name.endswith("string::ToString>::to_string") or name.endswith("ToString::to_string"):
+    if name.endswith("string::String::new") or name.endswith("string::String::with_capacity"):
+        return StrBuf()
+    if name.endswith("string::String::push_str"):
+        sb = strbuf_of(I, args[0])
+        sl = as_slice(I, args[1])
+        sb.b.extend(sl.heap[sl.start:sl.start + sl.len])
+        return []
+    if name.endswith("string::String::push"):
+        sb = strbuf_of(I, args[0])
+        sb.b.extend(chr(args[1]).encode("utf-8", "surrogatepass"))
+        return []
+    if name.endswith("string::String::len"):
+        return len(strbuf_of(I, args[0]).b)
+    if name.endswith("string::String::is_empty"):
+        return int(len(strbuf_of(I, args[0]).b) == 0)
+    if name.endswith("string::String::as_str") or (name.endswith("ops::Deref>::deref") and isinstance(deref(I, args[0]), StrBuf)) or (fname.endswith("ops::Deref::deref") and isinstance(deref(I, args[0]), StrBuf)):
+        sb = strbuf_of(I, args[0])
+        return Slice(sb.b, 0, len(sb.b))
+    if (name.endswith("string::ToString>::to_string") or fname.endswith("string::ToString::to_string") or name.endswith("str::<impl str>::to_owned") or name.endswith("borrow::ToOwned>::to_owned") or name.endswith("str::<impl str>::to_string")) and isinstance(deref(I, args[0]), (Slice, StrBuf)):
+        sl = as_slice(I, args[0])
+        return StrBuf(sl.heap[sl.start:sl.start + sl.len])
+    if name.endswith("str::<impl str>::starts_with"):
+        a = as_slice(I, args[0])
+        b = deref(I, args[1])
+        if isinstance(b, (Slice, StrBuf)):
+            b = as_slice(I, b)
+            return int(a.len >= b.len and a.heap[a.start:a.start + b.len] == b.heap[b.start:b.start + b.len])
+        if isinstance(b, int):
+            pre = chr(b).encode("utf-8")
+            return int(bytes(a.heap[a.start:a.start + len(pre)]) == pre)
+        if isinstance(b, Adt) and b.path.startswith("closure:"):
+            it = CharsIter(a)
+            r = iter_next(I, it, depth)
+            if r.vi == 0:
+                return 0
+            return int(bool(call_closure(I, args[1], [r.fields[0]], depth)))
+        raise Unsupported("str::starts_with pattern %r" % (b,))
+    if name.endswith("num::<impl u32>::from_str_radix"):
+        sl = as_slice(I, args[0])
+        try:
+            return ok(int(bytes(sl.heap[sl.start:sl.start + sl.len]).decode(), args[1]))
+        except Exception:
+            return err([])
+    if name.endswith("char::methods::<impl char>::from_u32") or name.endswith("char::from_u32"):
+        c = args[0]
+        return some(c) if (0 <= c < 0xD800 or 0xE000 <= c <= 0x10FFFF) else NONE()
+    if name.endswith("result::Result::<T, E>::map_err"):
+        o = args[0]
+        if o.vi == 0:
+            return o
+        return err(call_closure(I, args[1], [o.fields[0]], depth))
+    if name.endswith("option::Option::<T>::ok_or_else"):
+        o = args[0]
+        if o.vi == 1:
+            return ok(o.fields[0])
+        return err(call_closure(I, args[1], [], depth))
+    if name.endswith("hint::must_use"):
+        return args[0]
+    if name.endswith("string::String::from_utf8_lossy") or name.endswith("Cow::<'_, B>::into_owned") or name.endswith("borrow::Cow::<'_, B>::into_owned") or name.endswith("fmt::format") or "fmt::Arguments" in name or "fmt::rt::Argument" in name or name.endswith("string::ToString>::to_string") or name.endswith("ToString::to_string"):
         return Opaque("string")
     if name.endswith("slice::<impl [T]>::iter"):
         return SliceIter(as_slice(I, args[0]))
@@ -749,7 +825,7 @@ def call(I, fr, name, fname, k, args, depth):
     if fname.endswith("convert::Into::into") or name.endswith("convert::Into<U>>::into"):
         # blanket Into: identity on scalars; local From impls are resolved as ordinary calls
         g = k.get("g", [])
-        if isinstance(args[0], int):
+        if isinstance(args[0], (int, Opaque, StrBuf)):
             return args[0]
         if len(g) == 2 and g[0] == g[1]:
             return args[0]
@@ -806,6 +882,8 @@ def as_slice(I, v):
     v = deref(I, v)
     if isinstance(v, Slice):
         return v
+    if isinstance(v, StrBuf):
+        return Slice(v.b, 0, len(v.b))
     if isinstance(v, list):
         return Slice(v, 0, len(v))
     raise Unsupported("expected slice, got %r" % (v,))
